@@ -7,6 +7,7 @@ mod publish;
 mod slots;
 mod smoother;
 mod startok;
+mod timershim;
 mod tune;
 mod url;
 mod writeprobe;
@@ -63,6 +64,7 @@ fn main() {
         "smoother" => smoother::run(&args),
         "slots" => slots::run(&args),
         "tune" => tune::run(&args),
+        "timershim" => timershim::run(&args),
         "dispatch-content" => dispatch::run_content(&args),
         "dispatch-violations" => dispatch::run_violations(&args),
         "dispatch-lifecycle" => dispatch::run_lifecycle(&args),
